@@ -57,7 +57,7 @@ CHECKS = {
             "Trusted: reference models (BTreeMap). More than 4 groups / 3 widths per group and larger maps are outside the bound.",
             "§5 C19"),
     "C20": ("model_checking",
-            "exhaustive enumeration of page selections (every ordered selection of 1-3 of 3 pages, incl. the same page twice) x 3 source storages (classic, xref stream + object streams, RC4-encrypted) x 4 resource placements x 3 extra-entry shapes (acyclic, cyclic through the page, shared between pages) plus every page of every corpus file, imported with the real Importer/PdfBuilder in isolated worker processes, saved, reloaded and compared with the source",
+            "exhaustive enumeration of page selections (every ordered selection of 1-3 of 3 pages, incl. the same page twice) x 4 source storages (classic, xref stream + object streams, RC4- and AES-encrypted) x 4 resource placements x 3 extra-entry shapes (acyclic, cyclic through the page, shared between pages) x 4 resource shapes (category dictionaries indirect, form sharing the page's resources object) x 3 ways of using the source (uncached, cached, cached with every stream read before the import) plus every page of every corpus file, imported with the real Importer/PdfBuilder in isolated worker processes, saved, reloaded and compared with the source",
             "Every case runs PageBuilder::clone_page + PdfBuilder::build in a worker (stack overflow / abort / hang attributed to the case), then: independent structural reader accepts the new file and finds no reference to an undefined object; boxes, rotation and canonical operation sequences equal; for every resource name the operations use (fonts, XObjects, ext-gstates, colour spaces, patterns, shadings, property lists) a deep comparison of dictionaries and decoded stream data through both resolvers; extra page entries equal; objects shared by the imported pages exist once in the output.",
             "Trusted: the structural reader and the deep comparison; documents are the generated rich document family and the repository corpus; /ProcSet and inherited page-tree attributes the operations do not use are outside the comparison.",
             "§5 C20"),
